@@ -282,13 +282,18 @@ def gen_put_world(rng, profile="mixed"):
 # worlds with populated trash directories (list / restore / empty / rm)
 # ---------------------------------------------------------------------------------------------------
 
-DATES = ["2020-01-01T00:00:00", "2024-02-29T23:59:59", "2024-03-01T12:00:00", "2024-03-01T12:00:01", "2024-03-02T12:00:00",
+DATES = ["2000-01-01T00:00:00\x0c", "2000-01-01T00:00:00\x1d", "2000-01-01T00:00:00\x0b", "2020-01-01T00:00:00", "2024-02-29T23:59:59", "2024-03-01T12:00:00", "2024-03-01T12:00:01", "2024-03-02T12:00:00",
          "2023-12-31T00:00:00", "1999-12-31T23:59:59", "2030-06-15T08:30:00", "2024-3-1T9:5:7", "2024-03-01t12:00:00"]
 BAD_DATES = ["2024-02-30T00:00:00", "yesterday", "", "2024-03-01", "2024-03-01T12:00:60", "2024-03-01T12:00:00 "]
 MALFORMED = ["non-trashinfo", "empty", "truncated", "binary", "non-utf8", "no-path", "no-date", "bad-date", "info-only",
              "orphan", "odd-stem", "info-is-dir", "info-dangling-link", "dup-keys-crlf"]
 ORIGIN_NAMES = [b"report.txt", b"a b", b"foo", b"foobar", b"foo.o", b"FOO", b"caf\xc3\xa9", b"x%y", b"new\nline", b"-dash", b"d1",
                 b"notes", b"\xff\xfe", b"q?", b"[b]", b"*star"]
+
+
+def truthy_date(x):
+    import re
+    return bool(re.match(r"^\d{4}-\d\d-\d\dT\d\d:\d\d:\d\d$", x))
 
 
 def payload(rng, w, p, sentinel):
@@ -323,12 +328,16 @@ def add_good(rng, w, tdir, base, name, loc, date, sentinel, kinds):
     from urllib.parse import quote
     q = quote(rec, "/").encode()
     style = rng.random()
-    if style < 0.8:
-        text = b"[Trash Info]\nPath=" + q + b"\nDeletionDate=" + date.encode() + b"\n"
+    if style < 0.08:
+        # an old date buried behind an exotic line separator inside another key's value: not a line of its own
+        text = (b"[Trash Info]\nX-Note=a" + rng.choice([b"\x1d", b"\x0c", b"\x0b", b"\xc2\x85", b"\xe2\x80\xa8"]) +
+                b"DeletionDate=1990-01-01T00:00:00\nPath=" + q + b"\nDeletionDate=" + date.encode("latin-1") + b"\n")
+    elif style < 0.8:
+        text = b"[Trash Info]\nPath=" + q + b"\nDeletionDate=" + date.encode("latin-1") + b"\n"
     elif style < 0.9:
-        text = b"[Trash Info]\r\nPath=" + q + b"\r\nDeletionDate=" + date.encode() + b"\r\n"
+        text = b"[Trash Info]\r\nPath=" + q + b"\r\nDeletionDate=" + date.encode("latin-1") + b"\r\n"
     else:
-        text = b"[Trash Info]\nX-Extra=1\nDeletionDate=" + date.encode() + b"\nPath=" + q + b"\nPath=/ignored\nDeletionDate=1990-01-01T00:00:00\n"
+        text = b"[Trash Info]\nX-Extra=1\nDeletionDate=" + date.encode("latin-1") + b"\nPath=" + q + b"\nPath=/ignored\nDeletionDate=1990-01-01T00:00:00\n"
     w.file(tdir + b"/info/" + name + b".trashinfo", text, 0o600)
     kinds.append(payload(rng, w, tdir + b"/files/" + name, sentinel))
     return rec
@@ -427,6 +436,13 @@ def gen_trash_world(rng, cmd, profile="mixed"):
             date = rng.choice(DATES)
             rec = add_good(rng, w, tdir, base, tname, loc, date, sentinel, kinds)
             entries.append({"tdir": tdir, "name": tname, "loc": loc, "rec": rec, "date": date, "base": base})
+            if rng.random() < 0.12:
+                # the same original location trashed a second time (another generation of the file)
+                d2 = rng.choice([x for x in DATES if truthy_date(x) and x != date])
+                t2 = nm + b"_%d" % rng.randint(3, 9)
+                if tdir + b"/info/" + t2 + b".trashinfo" not in w.nodes:
+                    rec2 = add_good(rng, w, tdir, base, t2, loc, d2, sentinel, kinds)
+                    entries.append({"tdir": tdir, "name": t2, "loc": loc, "rec": rec2, "date": d2, "base": base, "dup": True})
         nbad = {"clean": 0, "mixed": rng.choice([0, 0, 1, 2]), "malformed": rng.choice([2, 3, 5])}[profile]
         for j in range(nbad):
             add_malformed(rng, w, tdir, rng.choice(MALFORMED), 100 * len(entries) + j)
